@@ -1,11 +1,11 @@
 CONSTANTS
-  Names = {1, 2}
-  LKeys = {3}
-  R = 2
-  P = 2
-  Q = 4
-  HTabs <- AllHTabs
-INIT IInit
-NEXT INext
-INVARIANTS ITypeOK EntriesOK OwnerIsLive OwnerIsFunctionOfSet
+  Keys = {"A", "B"}
+  N = 6
+  PushAfter = 1
+  Agg = 3
+  MaxT = 30
+  MaxFlows = 4
+INIT RInit
+NEXT Next
+INVARIANTS NoViolation HistoryAgrees Conservation SlotsContiguous
 CHECK_DEADLOCK FALSE
